@@ -460,11 +460,35 @@ def main():
 '''
 
 
+TYPE_COMMENT_MODULE = '''"""comments that merely LOOK like PEP 484 type comments, in places where a type comment is not grammatical"""
+LOG = []
+import os  # type: module
+def scale(x, k=2):  # type: (int, int) -> int
+    y = x * k  # type: int
+    table = [
+        1,  # type: first entry
+        2,
+    ]
+    # type: this line is prose
+    if y:  # type: ignored because reasons
+        LOG.append(len(table))
+    return y  # type: the result
+class Box:
+    def get(self):
+        return os.sep  # type: str
+def main():
+    return (scale(3), Box().get()), LOG
+'''
+
+
 def execute(code, path):
     mod = types.ModuleType("genmod")
     mod.__file__ = path
     exec(code, mod.__dict__)
     return mod.main(), {k: (getattr(v, "__name__", None), getattr(v, "__doc__", None)) for k, v in mod.__dict__.items() if callable(v) and not k.startswith("__")}, mod.__doc__
+
+
+FIXED_MODULES = [KITCHEN_SINK, ANNOTATED_MODULE, TYPE_CHECKING_MODULE, OWN_IMPORT_MODULE, TYPE_COMMENT_MODULE]
 
 
 def run(tier, seed, out, drv, facts):
@@ -474,7 +498,7 @@ def run(tier, seed, out, drv, facts):
     files = corpus_files()
     if not thorough:
         files = rng.sample(files, 300)
-    for path in files:
+    for ci, path in enumerate(files):
         try:
             with open(path, "rb") as fh:
                 from importlib.util import decode_source
@@ -484,11 +508,22 @@ def run(tier, seed, out, drv, facts):
             out.count("skipped_undecodable")
             continue
         validate(out, drv, source, path, "corpus")
+        # every sixth file also through the REAL loader: whatever compiles plainly compiles there
+        if ci % 6 == 0:
+            try:
+                compile(source, path, "exec", dont_inherit=True)
+            except Exception:  # noqa: BLE001
+                continue
+            out.count("corpus_files_through_loader")
+            try:
+                through_loader(source, path)
+            except Exception as e:  # noqa: BLE001
+                out.violation(f"loader:{type(e).__name__}", f"the loader fails on {path}, which compiles plainly: {e!r}", {"source": source})
     n_gen = 3000 if thorough else 200
     for i in range(n_gen + 1):
         # the first "generated" module is a fixed one with a definition in every kind of statement block
         # (if/elif/else, for/else, while/else, with, try/except/else/finally, except*, match cases, nested)
-        source = [KITCHEN_SINK, ANNOTATED_MODULE, TYPE_CHECKING_MODULE, OWN_IMPORT_MODULE][i] if i < 4 else gen_module(rng)
+        source = FIXED_MODULES[i] if i < len(FIXED_MODULES) else gen_module(rng)
         path = f"<generated {i}>"
         code = validate(out, drv, source, path, "generated")
         if code is None:
@@ -507,7 +542,7 @@ def run(tier, seed, out, drv, facts):
             out.violation("behaviour", f"a hooked module behaves differently from the plain one: {str(plain)[:300]} vs {str(hooked)[:300]}", {"source": source})
         # the same module through the real loader: the compile step must not add or lose __future__ behaviour, and the
         # module must behave as when it is compiled here from the transformed tree
-        if i % 10 == 0 or i < 4:
+        if i % 10 == 0 or i < len(FIXED_MODULES):
             try:
                 lcode = through_loader(source, path)
             except Exception as e:  # noqa: BLE001
